@@ -473,6 +473,17 @@ theorem combinedT_kind {lt rt : OTy} {ka kb : Kind} (hl : lt.kind = .num ka) (hr
   · have : ¬ (ka.rank + 1 > kb.rank + 1) := by omega
     simp only [this, h, if_false]; exact hr
 
+theorem isInterfaceT_scalar {t : OTy} (h : ScalarT t) : isInterfaceT t = false := by
+  unfold isInterfaceT
+  rw [scalar_deref_kind h]
+  unfold ScalarT at h
+  cases hk : t.kind <;> simp [hk, RKind.isScalar] at h ⊢
+
+theorem combinedR_scalar (dt : TDefects) {lt rt : OTy} (hl : ScalarT lt) (hr : ScalarT rt) :
+    combinedR dt lt rt = combinedT lt rt := by
+  unfold combinedR
+  simp [isInterfaceT_scalar hl, isInterfaceT_scalar hr]
+
 theorem fragBinary_cases {op : String} (h : fragBinary op = true) :
     op = "and" ∨ op = "&&" ∨ op = "or" ∨ op = "||" ∨ op = "==" ∨ op = "!=" ∨ op = "<" ∨ op = ">" ∨
     op = "<=" ∨ op = ">=" ∨ op = "+" ∨ op = "-" ∨ op = "*" ∨ op = "/" ∨ op = "%" ∨ op = "contains" ∨
@@ -505,8 +516,9 @@ theorem binary_rule_sound (hE : E .divzero) (c : SCfg) (dt : TDefects) (m : Meta
       rw [k1] at hl; rw [k2] at hr
       exact evalOK_cmp_str c m o l r ho hl hr
   have arith : ∀ o, (o = "+" ∨ o = "-" ∨ o = "*" ∨ o = "/") → isNumberT lt = true → isNumberT rt = true →
-      EvalOK E P c (.binary m o l r) (combinedT lt rt).kind := by
+      EvalOK E P c (.binary m o l r) (combinedR dt lt rt).kind := by
     intro o ho h1 h2
+    rw [combinedR_scalar dt hls hrs]
     obtain ⟨ka, k1⟩ := (isNumberT_scalar hls).1 h1
     obtain ⟨kb, k2⟩ := (isNumberT_scalar hrs).1 h2
     rw [combinedT_kind k1 k2]
@@ -607,7 +619,7 @@ theorem binary_rule_sound (hE : E .divzero) (c : SCfg) (dt : TDefects) (m : Meta
       cases hrule
       obtain ⟨ka, k1, f1⟩ := (isIntegerT_scalar hls).1 hc.1
       obtain ⟨kb, k2, f2⟩ := (isIntegerT_scalar hrs).1 hc.2
-      rw [combinedT_kind k1 k2]
+      rw [combinedR_scalar dt hls hrs, combinedT_kind k1 k2]
       rw [k1] at hl; rw [k2] at hr
       exact evalOK_arith hE c m "%" l r ka kb (Or.inr (Or.inr (Or.inr (Or.inr ⟨rfl, f1, f2⟩)))) hl hr
     · cases hrule
@@ -748,8 +760,13 @@ theorem frag_cond (cfg : CheckCfg) (cs : List OTy) (c : SCfg) (m : Meta) (cn a b
             rw [← hs]
             simp only [condType]
             by_cases has : assignableTo x y = true
-            · simp only [has, if_true]
-              exact ⟨trivial, assignable_scalar_kind h1s h2s has⟩
+            · have hxy := assignable_scalar_kind h1s h2s has
+              by_cases hf : cfg.dt.condFirstBranchType = true
+              · simp only [has, hf, if_true]
+                exact ⟨trivial, hxy⟩
+              · have hf' : cfg.dt.condFirstBranchType = false := by simpa using hf
+                simp only [has, hf', if_true, Bool.false_eq_true, if_false]
+                exact ⟨hxy.symm, trivial⟩
             · -- the result type would be interface{}: not scalar
               exfalso
               have hτ : τ = ifaceTy := by
